@@ -584,3 +584,160 @@ Proof.
     split; [exact T|]. rewrite AV. reflexivity.
   - split; [apply P_same|]. unfold aval. rewrite E. auto.
 Qed.
+
+(* ------------------------------------------------------------------ mpt_array_slice + the caller's store *)
+Definition oslice (hp : heap) (a : arr) (off : nat) (d : list byte) (w : bool) : ares :=
+  match array_slice hp a off (length d) with
+  | ADone hp1 (Some j) _ =>
+    if w then lift hp1 (Some j) (do hp2 <- store hp1 j off d; Ok (hp2, Some j, 0))
+    else ADone hp1 (Some j) 0
+  | ADone _ None _ => AFault
+  | r => r
+  end.
+
+Lemma store_view b off d : buf_wf b -> off + length d <= bused b ->
+  match wr (bdata b) off d with
+  | Ok m => buf_wf (set_data b m) /\ bview (set_data b m) = put (bview b) off d
+  | _ => False
+  end.
+Proof.
+  intros [L [U A]] H. rewrite wr_sem by lia. split.
+  - unfold buf_wf; bsimp. split; [len_simp; lia|]. split; assumption.
+  - unfold bview, put; bsimp. rewrite firstn_length, L, Nat.min_l by lia.
+    rewrite (proj2 (Nat.ltb_ge (bused b) off)) by lia. list_eq.
+Qed.
+
+Lemma ext_length l total : length (ext l total) = Nat.max (length l) total.
+Proof. unfold ext. rewrite app_length, length_zeros. lia. Qed.
+
+Lemma oslice_sem hp a off d w cnt acc : aok hp a ->
+  ares_ok hp a (oslice hp a off d w) (s_slice (hint_at hp a cnt acc) (aval hp a) off d w) false.
+Proof.
+  intros OK. unfold oslice. pose proof (array_slice_sem hp a off (length d) cnt acc OK) as S.
+  destruct (array_slice hp a off (length d)) as [hp1 a1 n|hp1 a1|]; [| |contradiction].
+  - destruct S as [Rf [j [b' [-> [E' [T [R' [I' [W' [S' [Tr V']]]]]]]]]]].
+    assert (Spec : s_slice (hint_at hp a cnt acc) (aval hp a) off d w =
+                   D (Some (fst (tl_of hp a),
+                            if w then put (ext (snd (tl_of hp a)) (off + length d)) off d
+                            else ext (snd (tl_of hp a)) (off + length d)))).
+    { unfold s_slice, tl_of. unfold slice_refuse, tl_of in Rf. destruct a as [i|].
+      - destruct (aval hp (Some i)) as [[t l]|] eqn:AV.
+        + cbn [fst snd] in *. apply orb_false_elim in Rf. destruct Rf as [R1 R2]. rewrite R1, R2. reflexivity.
+        + exfalso. destruct (OK i eq_refl) as [b [E _]]. unfold aval in AV. rewrite E in AV. discriminate.
+      - cbn [aval fst snd]. unfold ext. cbn [length app]. rewrite Nat.sub_0_r. reflexivity. }
+    rewrite Spec. destruct w.
+    + pose proof (store_view b' off d W') as SV.
+      assert (BL : off + length d <= bused b').
+      { rewrite <- (bview_length _ W'), V', ext_length. lia. }
+      specialize (SV BL). unfold store. rewrite E'.
+      destruct (wr (bdata b') off d) as [m| |]; try contradiction. destruct SV as [W2 V2].
+      cbn [bind lift ares_ok].
+      destruct (inplace_done hp a hp1 j b' (set_data b' m) T E' R' ltac:(bsimp; lia) W2) as [T2 AV2].
+      split; [exact T2|]. rewrite AV2. unfold D, bval. rewrite V2, V'. bsimp. rewrite Tr. reflexivity.
+    + cbn [ares_ok]. split; [exact T|]. unfold D, aval. rewrite E'. cbn [option_map]. unfold bval.
+      rewrite Tr, V'. reflexivity.
+  - destruct S as [Rf [-> ->]]. cbn [ares_ok]. split; [apply P_same|]. split; [|reflexivity].
+    unfold s_slice. unfold slice_refuse, tl_of in Rf. destruct a as [i|]; [|discriminate].
+    destruct (aval hp (Some i)) as [[t l]|] eqn:AV.
+    + cbn [fst snd] in Rf. apply orb_true_iff in Rf. destruct Rf as [R1|R2].
+      * rewrite R1. reflexivity.
+      * rewrite R2. destruct (negb (t =? 0) && negb (al3 t off (length d) (length l))); reflexivity.
+    + exfalso. destruct (OK i eq_refl) as [b [E _]]. unfold aval in AV. rewrite E in AV. discriminate.
+Qed.
+
+(* ------------------------------------------------------------------ in-place functions against the specification *)
+Lemma hint_private hp i b cnt acc : hget hp i = Some b -> shared b = false -> bimm b = false ->
+  hint_at hp (Some i) cnt acc = mkhint false false (bnc b) (bsize b) cnt acc.
+Proof. intros E S I. unfold hint_at. rewrite E, S, I. reflexivity. Qed.
+
+Lemma bufset_sem hp i b tr pos d cnt acc :
+  hget hp i = Some b -> buf_wf b -> bref b = 1 -> shared b = false -> bimm b = false ->
+  ares_ok hp (Some i) (lift hp (Some i) (do b1 <- buffer_set b tr pos d; Ok (hset hp i b1, Some i, 0)))
+    (s_bufset (hint_at hp (Some i) cnt acc) (aval hp (Some i)) tr pos d) false.
+Proof.
+  intros E W R S I. apply (direct_sem hp i b _ _ tt E R); [|reflexivity].
+  rewrite (hint_private hp i b cnt acc E S I). unfold aval. rewrite E. cbn [option_map].
+  unfold s_bufset, bval, guarded. cbn [hsh him hsz orb].
+  pose proof (buffer_set_sem b tr pos d W) as B. unfold set_cond in B.
+  destruct (buffer_set b tr pos d) as [b2| |]; [|..].
+  - destruct B as [[K1 [K2 [K3 [K4 K5]]]] [W2 [V2 C]]].
+    split; [lia|]. split; [exact W2|]. rewrite V2, K4.
+    apply andb_prop in C. destruct C as [C1 C2]. apply Nat.leb_le in C1.
+    rewrite (proj2 (Nat.ltb_ge _ _)) by lia.
+    destruct (btr b =? 0).
+    + rewrite C2. reflexivity.
+    + apply andb_prop in C2. destruct C2 as [C2 C5]. apply andb_prop in C2. destruct C2 as [C2 C4].
+      apply andb_prop in C2. destruct C2 as [C2 C3]. apply negb_true_iff in C2.
+      rewrite C2, C3, C4, C5. reflexivity.
+  - destruct (Nat.ltb_spec (bsize b) (pos + length d)); [reflexivity|].
+    rewrite (proj2 (Nat.leb_le _ _)) in B by lia. cbn [andb] in B.
+    destruct (btr b =? 0).
+    + rewrite B. reflexivity.
+    + destruct (tr =? 0); [reflexivity|]. cbn [negb andb] in B.
+      destruct (aligned tr pos && aligned tr (length d)); cbn [negb andb] in *; [|reflexivity].
+      rewrite B. reflexivity.
+  - contradiction.
+Qed.
+
+Lemma bufcut_sem hp i b off len cnt acc :
+  hget hp i = Some b -> buf_wf b -> bref b = 1 -> shared b = false -> bimm b = false ->
+  ares_ok hp (Some i) (lift hp (Some i) (do b1 <- buffer_cut b off len; Ok (hset hp i b1, Some i, 0)))
+    (s_bufcut (hint_at hp (Some i) cnt acc) (aval hp (Some i)) off len) false.
+Proof.
+  intros E W R S I. apply (direct_sem hp i b _ _ tt E R); [|reflexivity].
+  rewrite (hint_private hp i b cnt acc E S I). unfold aval. rewrite E. cbn [option_map].
+  unfold s_bufcut, bval, guarded. cbn [hsh him orb]. rewrite (bview_length _ W).
+  pose proof (buffer_cut_sem b off len W) as B. unfold cut_cond in B.
+  destruct (buffer_cut b off len) as [b2| |]; [|..].
+  - destruct B as [C [[K1 [K2 [K3 [K4 K5]]]] [W2 V2]]].
+    split; [lia|]. split; [exact W2|]. rewrite V2, K4.
+    apply andb_prop in C. destruct C as [C12 C3]. apply andb_prop in C12. destruct C12 as [C1 C2].
+    apply Nat.leb_le in C1. rewrite (proj2 (Nat.ltb_ge _ _)) by lia.
+    destruct (Nat.eqb_spec len 0) as [Z|Z]; cbn [negb andb].
+    + apply Nat.leb_le in C2. rewrite (proj2 (Nat.ltb_ge _ _)) by lia.
+      destruct (btr b =? 0); cbn [negb andb orb] in *; [reflexivity|]. rewrite C3. reflexivity.
+    + apply Nat.leb_le in C2. rewrite (proj2 (Nat.ltb_ge _ _)) by lia.
+      destruct (btr b =? 0); cbn [negb andb orb] in *; [reflexivity|]. rewrite C3. reflexivity.
+  - destruct (Nat.ltb_spec (bused b) len); [reflexivity|].
+    rewrite (proj2 (Nat.leb_le _ _)) in B by lia. cbn [andb] in B.
+    destruct (Nat.eqb_spec len 0) as [Z|Z]; cbn [negb andb].
+    + destruct (Nat.ltb_spec (bused b) off); [reflexivity|].
+      rewrite (proj2 (Nat.leb_le _ _)) in B by lia. cbn [andb] in B.
+      destruct (btr b =? 0); cbn [negb andb orb] in *; [discriminate|]. rewrite B. reflexivity.
+    + destruct (Nat.ltb_spec (bused b - len) off); [reflexivity|].
+      rewrite (proj2 (Nat.leb_le _ _)) in B by lia. cbn [andb] in B.
+      destruct (btr b =? 0); cbn [negb andb orb] in *; [discriminate|]. rewrite B. reflexivity.
+  - contradiction.
+Qed.
+
+Lemma bufinsert_sem hp i b pos d cnt acc :
+  hget hp i = Some b -> buf_wf b -> bref b = 1 -> shared b = false -> bimm b = false ->
+  ares_ok hp (Some i) (insert_at hp i pos d)
+    (s_bufinsert (hint_at hp (Some i) cnt acc) (aval hp (Some i)) pos d) false.
+Proof.
+  intros E W R S I. unfold insert_at. rewrite E.
+  rewrite (hint_private hp i b cnt acc E S I). unfold aval. rewrite E. cbn [option_map].
+  unfold s_bufinsert, bval, guarded. cbn [hsh him hsz orb]. rewrite (bview_length _ W).
+  pose proof (buffer_insert_sem b pos d W) as B. unfold ins_cond, ins_total in B. rewrite I in B.
+  cbn [negb andb] in B. rewrite andb_true_r in B. unfold al3.
+  destruct (buffer_insert b pos (length d)) as [b2| |]; [|cbn [bind lift ares_ok]|contradiction].
+  - destruct B as [C [[K1 [K2 [K3 [K4 K5]]]] B]]. cbn [bind].
+    rewrite store_hset by (apply (hget_lt _ _ _ E)).
+    destruct (wr (bdata b2) pos d) as [m| |]; try contradiction. destruct B as [W2 V2].
+    cbn [bind lift ares_ok].
+    destruct (inplace_done hp (Some i) hp i b (set_data b2 m) (P_same _ _) E R ltac:(bsimp; lia) W2) as [T2 AV2].
+    split; [exact T2|]. rewrite AV2. unfold bval. rewrite V2. bsimp. rewrite K4.
+    destruct (Nat.eqb_spec (if pos <? bused b then bused b + length d else pos + length d) 0) as [Z|Z].
+    + assert (pos = 0 /\ length d = 0 /\ bused b = 0) as [-> [Ld Ub]].
+      { destruct (Nat.ltb_spec pos (bused b)); lia. }
+      destruct d; [|discriminate]. unfold D. repeat f_equal.
+      unfold ins, bview. rewrite Ub. reflexivity.
+    + cbn [orb] in C. apply andb_prop in C. destruct C as [C1 C2]. apply Nat.leb_le in C1.
+      rewrite (proj2 (Nat.ltb_ge _ _)) by lia.
+      destruct (btr b =? 0); cbn [negb andb orb] in *; [reflexivity|]. rewrite C2. reflexivity.
+  - split; [apply P_same|]. split; [|reflexivity]. unfold aval. rewrite E. cbn [option_map]. unfold bval.
+    apply orb_false_elim in B. destruct B as [B1 B2]. rewrite B1.
+    destruct (Nat.ltb_spec (bsize b) (if pos <? bused b then bused b + length d else pos + length d)); [reflexivity|].
+    rewrite (proj2 (Nat.leb_le _ _)) in B2 by lia. cbn [andb] in B2.
+    destruct (btr b =? 0); cbn [negb andb orb] in *; [discriminate|]. rewrite B2. reflexivity.
+Qed.
